@@ -30,7 +30,7 @@ func init() {
 		Checks: map[string]func(*core.Env, []json.RawMessage){"resource": replayC10, "envcoll": replayC10Env},
 		Threshold: func(m *core.Merged) []string {
 			var r []string
-			for _, k := range []string{"subsetting", "partition", "where-exists", "where-eq", "where-this", "all", "select", "extension", "distinct", "exclude", "intersect", "multi-item", "complex-collection", "primitive-collection", "duplicates"} {
+			for _, k := range []string{"subsetting", "partition", "where-exists", "where-eq", "where-this", "all", "select", "select-identity", "extension", "distinct", "exclude", "intersect", "multi-item", "complex-collection", "primitive-collection", "duplicates"} {
 				if m.Cover[k] == 0 {
 					r = append(r, "never observed: "+k)
 				}
@@ -124,6 +124,15 @@ func c10Battery(env *core.Env, cc *c10Coll) {
 	expectBool("empty", "%c.empty()", n == 0)
 	expectBool("empty", "%c.empty() = (%c.count() = 0)", true)
 	expectBool("exists", "%c.exists()", n > 0)
+	// projections and criteria that hand the item itself on: the in-order concatenation is c again
+	env.Cover("select-identity")
+	for _, e := range []string{"$this", "$this.take(1)", "iif(true, $this)", "$this.skip(0)", "$this.where(true)", "$this.first()", "$this.select($this)"} {
+		expectItems("select-identity", "%c.select("+e+")", orEmpty(cc.C))
+	}
+	expectItems("select-identity", "%c.where(true)", orEmpty(cc.C))
+	expectItems("select-identity", "%c.where($this.exists())", orEmpty(cc.C))
+	expectItems("select-identity", "%c.where(false)", system.Collection{})
+	expectItems("select-identity", "%c.select({})", system.Collection{})
 	// positional subsetting
 	env.Cover("subsetting")
 	first := system.Collection{}
